@@ -2,6 +2,8 @@
 From Bita Require Import Model.Base Model.ChunkIndex Model.CloneOutput Model.CloneSpec.
 From Bita Require Import Model.HashSum.
 From Bita Require Import Proofs.Planner Proofs.CloneCorrect Proofs.CloneFinal Proofs.HashKeyRefine.
+From Bita Require Import Model.Chunker Model.Proto Model.Archive Model.Compress Model.CloneArchive Model.CloneBytes.
+From Bita Require Import Proofs.ProtoRoundTrip Proofs.TamperSafe Proofs.RoundTrip Proofs.CloneBytesCorrect.
 
 (* For every source, every prior output (used as seed or not), EVERY list of seed chunks that are what
    their hash says they are (any number, any order, related to the source or not; keys that are not in
@@ -49,6 +51,40 @@ Theorem C02_lookup_truncates_consistently : forall L idx h1 h2, takeN L h1 = tak
   hci_contains L idx h1 = hci_contains L idx h2 /\ hci_remove L idx h1 = hci_remove L idx h2.
 Proof. exact lookup_same_prefix. Qed.
 
+(* The same at the level of BYTES (Model/CloneBytes.v): the seeds (and the old output, when it is used in place)
+   are arbitrary byte strings, scanned with the archive's chunker and hashed with [H] as clone_cmd.rs does. For
+   every archive the model writer produces, whatever the seeds and the old output contain, the command yields
+   exactly the source -- the only assumption being that the truncated strong hash does not collide on the
+   chunks this run looks at (those of the source and those found in the scanned files). *)
+Theorem C02_clone_bytes_any_seeds :
+  forall (H comp : list N -> list N) (decomp : N -> list N -> option (list N)),
+    (forall x, lenN (H x) = 64) -> (forall x, Forall (fun b => b < 256) (H x)) ->
+    forall src o bytes prior inplace seeds,
+      opts_ok o -> bytes_ok src -> lenN src < 18446744073709551616 -> lenN bytes < 18446744073709551616 ->
+      codec_ok comp decomp o -> few_chunks o src -> no_collision H o src prior inplace seeds ->
+      compress_model H comp src o = Ok bytes ->
+      open_and_clone_bytes H decomp bytes prior inplace seeds = Ok src.
+Proof. exact open_and_clone_bytes_correct. Qed.
+
+(* and for ANY opened archive whose index describes a source (C17's freedom), with the scan of seeds and old output *)
+Theorem C02_clone_bytes_any_archive :
+  forall (H : list N -> list N) (decomp : N -> list N -> option (list N)),
+    (forall x, Forall (fun b => b < 256) (H x)) ->
+    forall (D : N -> list N) a src payload_of prior inplace seeds,
+      describes D (build_source_index a) src -> desc_keys_ok a ->
+      (forall d, In d (a_descs a) -> unpack H decomp a d (payload_of d) = Ok (D (dkey a d))) ->
+      valid_config (a_cfg a) = true ->
+      (forall d, In d (a_descs a) -> trunc a (ad_checksum d) = trunc a (H (D (dkey a d)))) ->
+      (forall x y, In x (map (fun d => D (dkey a d)) (a_descs a) ++ scanned a prior inplace seeds) ->
+                   In y (map (fun d => D (dkey a d)) (a_descs a) ++ scanned a prior inplace seeds) ->
+                   trunc a (H x) = trunc a (H y) -> x = y) ->
+      exists r, clone_bytes H decomp a payload_of prior inplace seeds = Ok r
+        /\ o_err (cr_state r) = None /\ cr_index r = [] /\ takeN (lenN src) (o_file (cr_state r)) = src.
+Proof. exact clone_bytes_general. Qed.
+
+(* non-vacuity: computed instances (RollSum / fixed size, an old output re-ordered in place, one seed, the rest
+   fetched) are cb_fixed_inplace_seed, cb_rolling_inplace_seed, cb_instance in Proofs/CloneBytesCorrect.v *)
+
 Example C02_example :
   let cidx := [(1, {| l_size := 3; l_offs := [0] |}); (0, {| l_size := 2; l_offs := [3;5] |})] in
   let r := clone_model [] None cidx None [(7, [9;9]); (0, [1;2])] [(1, [3;4;5]); (0, [1;2])] in
@@ -61,3 +97,5 @@ Print Assumptions C02_hash_keyed_index_refines_add.
 Print Assumptions C02_hash_keyed_index_refines_remove.
 Print Assumptions C02_hash_keyed_index_refines_contains.
 Print Assumptions C02_lookup_truncates_consistently.
+Print Assumptions C02_clone_bytes_any_seeds.
+Print Assumptions C02_clone_bytes_any_archive.
